@@ -42,6 +42,7 @@ def run(P, rep, tier):
     ctx = Ctx(P)
     rep.attempt(r1_wiring, P, rep, ctx)
     rep.attempt(r2_extras, P, rep, ctx)
+    rep.attempt(r6_inspector_precedence, P, rep, ctx)
     rep.attempt(r3_shipped_schemas, P, rep, ctx)
     rep.attempt(r4_wrapper_stricter, P, rep, ctx)
     rep.attempt(r5_const_specialisation, P, rep, ctx)
@@ -111,7 +112,7 @@ def r1_wiring(P, rep, ctx):
         for t, lab in sub:
             m = MM.match("is_subtype(__a, __b)", g.nodes[t].exprs[0])
             a_, b_ = o.x_at(t, m["__a"]), o.x_at(t, m["__b"])
-            pair = _unpack_pair(o, m["__a"], m["__b"], fn, sc)
+            pair = _unpack_pair(o, m["__a"], m["__b"], fn, sc, at=t)
             if (a_, b_) == (HN, HB) or pair:
                 good.append((t, lab))
         bad = o.neg(good)
@@ -134,14 +135,69 @@ def r1_wiring(P, rep, ctx):
     rep.check(okd, "C13.R1", do.qual, "overrides = own annotations that also occur in the bases' hints", do.loc(), construct="detect_field_overrides", message="detect_field_overrides changed shape")
 
 
-def _unpack_pair(o, a, b, fn, sc) -> bool:
-    """`hint, parent_hint = (hints[f], base_hints[f])` feeding is_subtype(hint, parent_hint)"""
+def _unpack_pair(o, a, b, fn, sc, at=None) -> bool:
+    """`hint, parent_hint = (hints[f], base_hints[f])` feeding is_subtype(hint, parent_hint) -- and nothing else
+    (re)defines the two names before the test"""
     if not (isinstance(a, ast.Name) and isinstance(b, ast.Name)):
         return False
+    if at is not None:
+        rd = o._rd().get(at, {})
+        if any(len(rd.get(nm.id, ())) != 1 for nm in (a, b)):
+            return False  # the hint reaching the subtype test was replaced / adjusted on some path
     for st in walk_local(o.node):
         if isinstance(st, ast.Assign) and len(st.targets) == 1 and isinstance(st.targets[0], ast.Tuple) and [norm(e) for e in st.targets[0].elts] == [a.id, b.id] and isinstance(st.value, ast.Tuple) and len(st.value.elts) == 2:
             return (o.x(st.value.elts[0]), o.x(st.value.elts[1])) == (f"cast(Any, {sc}._typehints)[{fn}]", f"cast(Any, {sc}._base_typehints)[{fn}]")
     return False
+
+
+def r6_inspector_precedence(P, rep, ctx):
+    """check_types recurses through schema.Fields[f].schemas: the per-field table must give the class's *own* (re)declared
+    field precedence over the inherited one, otherwise the nested schema that is checked is the parent's."""
+    fi = P.func("schema.inspect.make_field_inspector")
+    f = F(ctx, fi)
+    model, prop = fi.params[0], fi.params[1]
+    OWN = None
+    for n in f.g.nodes:
+        if n.kind == "stmt" and isinstance(n.stmt, (ast.Assign, ast.AnnAssign)) and isinstance(n.stmt.value, ast.DictComp):
+            dc = n.stmt.value
+            if isinstance(dc.value, ast.Call) and any(norm(a) == model for a in dc.value.args) and "get_annotations" in f.x_at(n.idx, dc.generators[0].iter):
+                t = n.stmt.targets[0] if isinstance(n.stmt, ast.Assign) else n.stmt.target
+                OWN = norm(t)
+    if OWN is None:
+        raise AnalysisError("C13.R6: the table of the model's own field inspectors not found in make_field_inspector")
+    lifts = f.call_sites("lift_dict(__n, __m, ___)")
+    ok = bool(lifts)
+    why = ""
+    for i, c, b in lifts:
+        m = b["__m"]
+        if isinstance(m, ast.Name):
+            ds_ = [v for k, v in local_defs(fi).get(m.id, []) if v is not None]
+            if len(ds_) == 1 and isinstance(ds_[0], ast.Call):
+                m = ds_[0]
+        cm = MM.match("ChainMap(*__l)", m)
+        if cm is not None:
+            lst = cm["__l"]
+            if isinstance(lst, ast.Name):
+                ds_ = [v for k, v in local_defs(fi).get(lst.id, []) if v is not None]
+                lst = ds_[0] if len(ds_) == 1 else lst
+            first = lst.left.elts[0] if isinstance(lst, ast.BinOp) and isinstance(lst.left, ast.List) and lst.left.elts else lst.elts[0] if isinstance(lst, ast.List) and lst.elts else None
+            if first is None or norm(first) != OWN:
+                ok, why = False, f"ChainMap over {norm(lst)[:80]} does not start with the model's own table"
+        elif MM.match("ChainMap(__a, ___)", m) is not None:
+            if norm(MM.match("ChainMap(__a, ___)", m)["__a"]) != OWN:
+                ok, why = False, "ChainMap does not start with the model's own table"
+        elif isinstance(b["__m"], ast.Name):
+            # a flat dict: the own table must be merged in last (or the parents only fill missing keys)
+            tv = b["__m"].id
+            ups = [(j, c2) for j, c2, b2 in f.call_sites(f"{tv}.update(__d)")]
+            own_last = [j for j, c2 in ups if norm(c2.args[0]) == OWN]
+            others = [j for j, c2 in ups if norm(c2.args[0]) != OWN]
+            if not own_last or any(o_ in f.g.reach([ol]) for ol in own_last for o_ in others):
+                ok, why = False, f"flat table `{tv}` is filled so that an inherited entry overwrites the model's own"
+        else:
+            ok, why = False, f"lookup table {norm(m)[:60]} not recognised"
+    rep.check(ok, "C13.R6", fi.qual, "a field (re)declared by the class shadows the inherited field in the class's field table", fi.loc(), construct="own fields first",
+              message=f"make_field_inspector builds the field table so that the parent's entry wins for a re-annotated field ({why}): check_types then checks the parent's nested schema instead of the child's, and an invalid nested override goes unnoticed")
 
 
 def r2_extras(P, rep, ctx):
